@@ -99,7 +99,7 @@ REQUIRED = {
     "C02": ["store.cas.mismatch", "store.live.ok", "concat.cas.mismatch", "delete.cas.mismatch", "store.absent.clientcas"],
     "C05": ["get.miss", "get.hit", "flush.delayed", "replace.absent", "concat.absent", "delta.create"],
     "C06": ["add.present", "replace.absent", "concat.ok", "concat.absent", "store.absent.ok"],
-    "C07": ["delta.ok", "delta.create", "delta.nocreate", "delta.nonnumeric"],
+    "C07": ["delta.ok", "delta.create", "delta.create.clientcas", "delta.nocreate", "delta.nonnumeric"],
     "C08": ["delete.ok", "delete.absent", "delete.cas.mismatch", "flush.now", "flush.delayed"],
     "C14": ["store.absent.ok+evicted", "store.live.ok"],
     "C15": ["store.live.ok", "concat.ok", "delta.ok", "delete.ok", "flush.now"],
